@@ -157,6 +157,24 @@ class Check:
             'notes': self.notes[:20],
         }
         cov.update(self.extra)
+        if ctx.thorough and not os.environ.get('DOSA_NO_SELFTEST'):
+            # checker self-test (DESIGN 3.11): seeded mutants must be reported, benign twins must stay silent.  Informational:
+            # it documents the rules' discriminating power and never changes the verdict about /repo.
+            try:
+                from .selftest.harness import run_all, summarise
+                vs, res = run_all(self.pid)
+                sm = summarise(vs, res)
+                cov.update({k: sm[k] for k in ('mutants_total', 'mutants_killed', 'twins_total', 'twins_silent')})
+                cov['variants_skipped'] = sm['skipped']
+                cov['selftest_problems'] = [list(map(str, p)) for p in sm['problems']][:20]
+                cov['selftest_samples'] = [f'{r[0]}: {r[1]} {r[2]}' for r in res][:12]
+                print(f'[{self.pid}] SELFTEST mutants {sm["mutants_killed"]}/{sm["mutants_total"]} killed, twins '
+                      f'{sm["twins_silent"]}/{sm["twins_total"]} silent, {sm["skipped"]} skipped')
+                for pr in sm['problems']:
+                    print(f'[{self.pid}] SELFTEST-NOTE {pr}')
+            except Exception as exc:  # the self-test must never break the check
+                cov['selftest_error'] = repr(exc)
+            wall = time.time() - self.t0
         ev = {
             'property_id': self.pid,
             'tier': ctx.tier,
